@@ -83,7 +83,7 @@ func txStepLine(s txStep) string {
 			}
 			return fmt.Sprintf("%s %s", head, s.query)
 		}
-	case "fail", "ac":
+	case "fail", "fail1", "ac":
 		return fmt.Sprintf("%s %d", s.kind, s.tag)
 	case "ap":
 		f := 0
@@ -277,6 +277,9 @@ var txFailKinds = []string{
 	// on the child store (ixC) vetoes the operation's id in ProcessBeforeUpdate (b), ProcessAfterUpdate (a),
 	// ProcessBeforeDelete (d); upper case: with a *boltz.RecordNotFoundError
 	"ixPb", "ixPa", "ixPd", "ixCb", "ixCa", "ixCd", "ixPB", "ixPA", "ixPD", "ixCB", "ixCA", "ixCD",
+	// fails only the first time the transaction function runs (a Db.Batch then commits on bbolt's re-run): the caller
+	// returns an error before / after the operation, an entity constraint vetoes
+	"fail1", "fail1after", "vetoPonce", "vetoConce", "vetoDonce",
 	// the second child store: entity constraint veto on its flow (plain / RecordNotFoundError), index-stage vetoes
 	"vetoD", "vetoDnf", "ixDb", "ixDa", "ixDd", "ixDB", "ixDA", "ixDD",
 	// the tags map of the written entity holds a value the typed-bucket setters reject (nothing injected)
@@ -321,6 +324,18 @@ func txInject(c *txCase, body []txStep, i int, kind string) ([]txStep, bool) {
 		return insert(txStep{kind: "fail", tag: 7}), true
 	case "pre":
 		return insert(txStep{kind: "ap", tag: 3, fails: true}), true
+	case "fail1":
+		return insert(txStep{kind: "fail1", tag: 8}), true
+	case "fail1after":
+		res := append([]txStep(nil), out[:i+1]...)
+		res = append(res, txStep{kind: "fail1", tag: 9})
+		return append(res, out[i+1:]...), true
+	case "vetoPonce":
+		c.regsP = append(c.regsP, txReg{style: 'o', vetoes: []txVeto{{kind: txOpKindChar(s), id: vetoId}}})
+	case "vetoConce":
+		c.regsC = append(c.regsC, txReg{style: 'o', vetoes: []txVeto{{kind: txOpKindChar(s), id: vetoId}}})
+	case "vetoDonce":
+		c.regsD = append(c.regsD, txReg{style: 'o', vetoes: []txVeto{{kind: txOpKindChar(s), id: vetoId}}})
 	case "dup":
 		if !write {
 			return nil, false
@@ -437,7 +452,14 @@ var txExactKinds = map[string]bool{"vetoP": true, "vetoC": true, "vetoPtyped": t
 	// an index-stage veto before the update leaves everything as it was, one after the write leaves
 	// everything written (one before the delete comes after the built-in indexes removed their entries)
 	"ixPb": true, "ixPa": true, "ixCb": true, "ixCa": true, "ixPB": true, "ixPA": true, "ixCB": true, "ixCA": true,
-	"vetoD": true, "vetoDnf": true, "ixDb": true, "ixDa": true, "ixDB": true, "ixDA": true}
+	"vetoD": true, "vetoDnf": true, "ixDb": true, "ixDa": true, "ixDB": true, "ixDA": true,
+	"vetoPonce": true, "vetoConce": true, "vetoDonce": true}
+
+// kinds whose Db.Batch variant adds nothing over the plain flavour of the same kind (RecordNotFoundError flavours of
+// vetoes, all but one of the rejected tags values): enumerated with Db.Update only
+var txUpdateOnlyKinds = map[string]bool{"vetoPnf": true, "vetoCnf": true, "vetoDnf": true,
+	"ixPB": true, "ixPA": true, "ixPD": true, "ixCB": true, "ixCA": true, "ixCD": true, "ixDB": true, "ixDA": true, "ixDD": true,
+	"tagbad0": true, "tagbad2": true, "tagbadS": true, "tagkeyempty": true, "tagkeybig": true, "lP3": true, "lC2": true}
 
 // txFaultCase: setup tx, then the faulty body in the given mode (with a commit action registered at
 // its start and a harmless pre-commit action), then a follow-up transaction that must still work.
@@ -529,12 +551,24 @@ func txEnumFaultsOver(ops []txStep, n int, modes []byte, emit func(string)) {
 			for pos := 0; pos < n; pos++ {
 				for _, kind := range txFailKinds {
 					for _, m := range modes {
+						if m == 'b' && txUpdateOnlyKinds[kind] {
+							continue
+						}
 						if line, ok := txFaultCase(body, pos, kind, m, false, false); ok {
 							emit(line)
 						}
 					}
 					if line, ok := txFaultCase(body, pos, kind, 'u', false, true); ok {
 						emit(line)
+					}
+					// the failed transaction's context is used again by the transaction that follows (and commits):
+					// nothing the failed one queued may run then
+					if kind == "caller" || kind == "pre" || kind == "fail1" || kind == "fail1after" || kind == "vetoPonce" {
+						for _, m := range modes {
+							if line, ok := txFaultCase(body, pos, kind, m, true, false); ok {
+								emit(line)
+							}
+						}
 					}
 				}
 			}
@@ -890,7 +924,7 @@ func txGenCommon(tier string, seed uint64, out *bufio.Writer, faultQuick, faultT
 	ops := txGoodOps()
 	nSample := faultQuick
 	if tier == "thorough" {
-		nSample = faultQuick * 10
+		nSample = faultQuick * 8
 	}
 	for i := 0; i < nSample; i++ {
 		n := 2 + r.intn(4)
